@@ -592,7 +592,7 @@ func init() {
 		Gen: func(tier string, seed int64) []mon.Case {
 			n := 400
 			if tier == "thorough" {
-				n = 20000
+				n = 15000
 			}
 			r := rand.New(rand.NewSource(seed*7919 + 1))
 			cs := make([]mon.Case, 0, n)
